@@ -27,7 +27,8 @@ Definition mismatches (cs : list lcase) : list (nat * N) :=
   flat_map (fun ic => map (fun e => (fst ic, e)) (check_lcase (snd ic))) (number 0 cs).
 
 (* select for update *)
-Record scase := { s_matched : list key; s_lockable : bool; s_journal : list sev; s_rows : option (list key) }.
+Record scase := { s_matched : list key; s_lockable : bool; s_journal : list sev; s_rows : option (list key);
+                  s_table : bytes; s_pk : list nat; s_text : option bytes (* LockKey of the GlobalLockQueryRequest, key-query row order = s_matched *) }.
 
 Definition sev_eqb (a b : sev) : bool :=
   match a, b with
@@ -44,6 +45,10 @@ Definition check_scase (c : scase) : list N :=
       | Some x, Some y => if list_eqb key_eqb x y then [] else [34%N]
       | None, None => []
       | _, _ => [34%N]
+      end)
+  ++ (match s_text c with
+      | Some t => if bytes_eqb t (sfu_key_text (s_table c) (s_pk c) (s_matched c)) then [] else [36%N]
+      | None => []
       end).
 
 Definition smismatches (cs : list scase) : list (nat * N) :=
